@@ -34,6 +34,7 @@ var suiteID = map[string]uint16{
 	"RC": 0x002f, // TLS_RSA_WITH_AES_128_CBC_SHA
 	"R3": 0x000a, // TLS_RSA_WITH_3DES_EDE_CBC_SHA
 	"XG": 0xc02b, // TLS_ECDHE_ECDSA_WITH_AES_128_GCM_SHA256
+	"CH": 0xcca8, // TLS_ECDHE_RSA_WITH_CHACHA20_POLY1305_SHA256 (bfe: only under a rule with Chacha20)
 }
 
 const scsv = 0x5600
@@ -192,6 +193,7 @@ type RuleSpec struct {
 	Grade      string   `json:"grade"`
 	NP         []string `json:"np"`
 	ClientAuth bool     `json:"clientauth"`
+	Chacha     bool     `json:"chacha"`
 }
 
 // ServerSpec is the abstract server configuration of the specs.
@@ -280,7 +282,8 @@ func buildServer(sv *ServerSpec, caches map[int]*memCache) *bfe_tls.Config {
 		if g == "" {
 			g = bfe_tls.GradeC
 		}
-		r := &bfe_tls.Rule{Grade: g, NextProtos: staticProtos(sv.Rule.NP), ClientAuth: sv.Rule.ClientAuth}
+		r := &bfe_tls.Rule{Grade: g, NextProtos: staticProtos(sv.Rule.NP), ClientAuth: sv.Rule.ClientAuth,
+			Chacha20: sv.Rule.Chacha}
 		if sv.Rule.ClientAuth {
 			r.ClientCAs = keys.clientCAs
 		}
